@@ -14,7 +14,12 @@ through the `…N` normal forms, because unfolding `x + 4294967296` definitional
 * §4 `GR`  : `GO` + the reader's hand; per-action lemmas `gr_*`, `gr_step`, `gr_reachable`;
 * §5 `GD`  : `inFlightM` queue discipline, in-flight counter, read deadline (C18); toolkit
   (`gd_mapW`, `gd_pop0`, `gd_filterW`, …), one lemma per helper, `Rest` (nobody waits for a free
-  mutex between two actions), per-action lemmas `gdr_*`, `good_step`, `good_reachable`.
+  mutex between two actions), per-action lemmas `gdr_*`;
+* §6 `DS`  : on a failed connection a registered item belongs to a send that is still before / in
+  its write (items registered after the failure sweep, `queueDirectClosing`); uses the environment
+  guard of `step` (`envOK_write`, `envOK_arm`: no successful `Write` / `SetReadDeadline` on a
+  closed connection); `DR`: on a failed connection the reader is not parked in `Read`;
+  `Good` = `GR ∧ GD ∧ Rest ∧ DS ∧ DR`, `good_step`, `good_reachable`.
 -/
 namespace GV.Conn
 
@@ -300,6 +305,54 @@ theorem startSend_eq' (s : St) (w : Who) (it : Item) :
       if mHeld (regSend s w it) then regSendQ s w it
       else regAddN s ((s.inFlight + 1) % uint32) w it := rfl
 
+/-- the `write` / `arm` branches of `step` below the environment guard -/
+def writeCore (s : St) (w : Who) (last : Bool) (r : IO) : Option St :=
+  match findSend s w .write with
+  | none => none
+  | some snd =>
+    match r with
+    | .err => some (finishSend (sendFailed (releaseWriteM s) snd) w)
+    | .ok =>
+      if !last then some s
+      else
+        let s1 := releaseWriteM s
+        if mHeld s1 then some { setPhase s1 w .armWait with mWait := s1.mWait ++ [.sender w] }
+        else some (senderAtM s1 w)
+
+def armCore (s : St) (w : Who) (r : IO) : Option St :=
+  match findSend s w .arm with
+  | none => none
+  | some snd =>
+    match r with
+    | .ok => some (releaseM (finishSend { s with armed := true } w))
+    | .err => some (releaseM (finishSend (sendFailed s snd) w))
+
+theorem step_write (s : St) (w : Who) (last : Bool) (r : IO) :
+    step s (.write w last r) = if s.done && r == .ok then none else writeCore s w last r := rfl
+
+theorem step_arm (s : St) (w : Who) (r : IO) :
+    step s (.arm w r) = if s.done && r == .ok then none else armCore s w r := rfl
+
+/-- a step that happened respects the environment restriction -/
+theorem envOK_write {s s' : St} {w : Who} {last : Bool} {r : IO}
+    (hs : step s (.write w last r) = some s') :
+    ¬ (s.done = true ∧ r = .ok) ∧ writeCore s w last r = some s' := by
+  rw [step_write] at hs
+  split at hs
+  · cases hs
+  · rename_i h
+    refine ⟨fun e => h ?_, hs⟩
+    simp [e.1, e.2]
+
+theorem envOK_arm {s s' : St} {w : Who} {r : IO} (hs : step s (.arm w r) = some s') :
+    ¬ (s.done = true ∧ r = .ok) ∧ armCore s w r = some s' := by
+  rw [step_arm] at hs
+  split at hs
+  · cases hs
+  · rename_i h
+    refine ⟨fun e => h ?_, hs⟩
+    simp [e.1, e.2]
+
 /-! ## §2 `Ext`: what the internal helpers never touch / only grow -/
 
 structure Ext (s s' : St) : Prop where
@@ -470,6 +523,18 @@ theorem ext_step {s s' : St} {a : Act} (hs : step s a = some s') : Ext s s' := b
         · injection hs with hs; subst hs; ext_upd
         · injection hs with hs; subst hs
           refine Ext.trans ?_ (ext_startSend _ _ _); ext_upd
+  | queueDirectClosing c =>
+    simp only [step] at hs
+    split at hs
+    · cases hs
+    · split at hs
+      · split at hs
+        · cases hs
+        · injection hs with hs; subst hs; ext_upd
+      · split at hs
+        · injection hs with hs; subst hs; ext_upd
+        · injection hs with hs; subst hs
+          refine Ext.trans ?_ ((ext_failConn _).trans (ext_startSend _ _ _)); ext_upd
   | queueUnsendable c =>
     simp only [step] at hs
     split at hs
@@ -488,7 +553,8 @@ theorem ext_step {s s' : St} {a : Act} (hs : step s a = some s') : Ext s s' := b
     · cases hs
     · injection hs with hs; subst hs; ext_upd
   | write w last r =>
-    simp only [step] at hs
+    have hs := (envOK_write hs).2
+    simp only [writeCore] at hs
     split at hs
     · cases hs
     · split at hs
@@ -502,7 +568,8 @@ theorem ext_step {s s' : St} {a : Act} (hs : step s a = some s') : Ext s s' := b
           · injection hs with hs; subst hs
             exact (ext_releaseWriteM s).trans (ext_senderAtM _ _)
   | arm w r =>
-    simp only [step] at hs
+    have hs := (envOK_arm hs).2
+    simp only [armCore] at hs
     split at hs
     · cases hs
     · split at hs
@@ -557,7 +624,7 @@ structure GO (s : St) (x : List Nat) : Prop where
   handedNodup : s.handed.Nodup
   idsNodup : (s.sent.map (·.1)).Nodup
   idsLe : ∀ p ∈ s.sent, p.1 ≤ s.nextId
-  doneSent : s.done = true → s.sent = [] ∧ s.offered = []
+  doneOff : s.done = true → s.offered = []
   droppedCtx : ∀ c ∈ s.dropped, c ∈ s.ctxDone
   srcNone : ∀ d ∈ s.delivered, d.src = none →
     d.res = .connErr ∨ (d.res = .fatal ∧ d.call ∈ s.unsendable)
@@ -579,7 +646,7 @@ theorem go_deliver {s : St} {x y : List Nat} (ds : List Dlv) (h : GO s (y ++ x))
   handedNodup := h.handedNodup
   idsNodup := h.idsNodup
   idsLe := h.idsLe
-  doneSent := h.doneSent
+  doneOff := h.doneOff
   droppedCtx := h.droppedCtx
   srcNone d hd := by
     rcases List.mem_append.1 hd with hd | hd
@@ -626,7 +693,7 @@ theorem go_failConn {s : St} {x : List Nat} (h : GO s x) : GO (failConn s) x := 
       handedNodup := h.handedNodup
       idsNodup := List.nodup_nil
       idsLe := fun p hp => by cases hp
-      doneSent := fun _ => ⟨rfl, rfl⟩
+      doneOff := fun _ => rfl
       droppedCtx := h.droppedCtx
       srcNone := fun d hd hn => by
         rcases List.mem_append.1 hd with hd | hd
@@ -663,9 +730,7 @@ theorem go_eraseSent {s : St} {x : List Nat} {id : Nat} {it : Item} (h : GO s x)
   handedNodup := h.handedNodup
   idsNodup := (List.filter_sublist.map _).nodup h.idsNodup
   idsLe p hp := h.idsLe p (List.mem_filter.1 hp).1
-  doneSent hd := by
-    have := h.doneSent hd
-    simp only [eraseSent, this.1, this.2, List.filter_nil, and_self]
+  doneOff := h.doneOff
   droppedCtx := h.droppedCtx
   srcNone := h.srcNone
   sentWrote p hp := h.sentWrote p (List.mem_filter.1 hp).1
@@ -687,7 +752,6 @@ theorem written_regSend (s : St) (w : Who) (it : Item) (c : Nat) :
   simp [written, regSend, List.map_append, List.count_append, Function.comp_def]
 
 theorem go_regSend {s : St} {x : List Nat} (w : Who) (it : Item) (h : GO s (it.calls ++ x))
-    (hd : s.done = false)
     (hfresh : ∀ c, s.offered.count c + written s c + it.calls.count c ≤ s.handed.count c) :
     GO (regSend s w it) x where
   cnt c := by
@@ -707,7 +771,7 @@ theorem go_regSend {s : St} {x : List Nat} (w : Who) (it : Item) (h : GO s (it.c
     rcases hp with hp | rfl
     · have := h.idsLe p hp; omega
     · exact Nat.le_refl _
-  doneSent hd' := by simp [regSend, hd] at hd'
+  doneOff := h.doneOff
   droppedCtx := h.droppedCtx
   srcNone := h.srcNone
   sentWrote p hp c := by
@@ -739,20 +803,19 @@ theorem go_regSend {s : St} {x : List Nat} (w : Who) (it : Item) (h : GO s (it.c
 
 theorem go_senderAddN {s : St} {x : List Nat} (n : Nat) (w : Who) (h : GO s x) :
     GO (senderAddN s n w) x :=
-  ⟨h.cnt, h.handedNodup, h.idsNodup, h.idsLe, h.doneSent, h.droppedCtx,
+  ⟨h.cnt, h.handedNodup, h.idsNodup, h.idsLe, h.doneOff, h.droppedCtx,
       h.srcNone, h.sentWrote, h.wroteLe, h.dlvWrote, h.wroteOnce, h.unsFatal⟩
 
 theorem go_senderAdd {s : St} {x : List Nat} (w : Who) (h : GO s x) : GO (senderAdd s w) x := by
   rw [senderAdd_eq]; exact go_senderAddN _ _ h
 
 theorem go_startSend {s : St} {x : List Nat} (w : Who) (it : Item) (h : GO s (it.calls ++ x))
-    (hd : s.done = false)
     (hfresh : ∀ c, s.offered.count c + written s c + it.calls.count c ≤ s.handed.count c) :
     GO (startSend s w it) x := by
-  have h1 := go_regSend w it h hd hfresh
+  have h1 := go_regSend w it h hfresh
   rw [startSend_eq]
   split
-  · exact ⟨h1.cnt, h1.handedNodup, h1.idsNodup, h1.idsLe, h1.doneSent, h1.droppedCtx,
+  · exact ⟨h1.cnt, h1.handedNodup, h1.idsNodup, h1.idsLe, h1.doneOff, h1.droppedCtx,
       h1.srcNone, h1.sentWrote, h1.wroteLe, h1.dlvWrote, h1.wroteOnce, h1.unsFatal⟩
   · exact go_senderAddN _ _ h1
 
@@ -761,12 +824,12 @@ theorem go_writerLoop {s : St} {x : List Nat} (h : GO s x) : GO (writerLoop s) x
   split
   · exact h
   · split
-    · exact ⟨h.cnt, h.handedNodup, h.idsNodup, h.idsLe, h.doneSent, h.droppedCtx, h.srcNone,
+    · exact ⟨h.cnt, h.handedNodup, h.idsNodup, h.idsLe, h.doneOff, h.droppedCtx, h.srcNone,
         h.sentWrote, h.wroteLe, h.dlvWrote, h.wroteOnce, h.unsFatal⟩
     · rename_i hnd
       split
       · exact h
-      · refine go_startSend _ _ ?_ (by simpa using hnd) ?_
+      · refine go_startSend _ _ ?_ ?_
         · exact {
             cnt := fun c => by
               have := h.cnt c
@@ -776,7 +839,7 @@ theorem go_writerLoop {s : St} {x : List Nat} (h : GO s x) : GO (writerLoop s) x
             handedNodup := h.handedNodup
             idsNodup := h.idsNodup
             idsLe := h.idsLe
-            doneSent := fun hd => by
+            doneOff := fun hd => by
               have hd' : s.done = true := hd
               rw [hd'] at hnd; exact absurd rfl hnd
             droppedCtx := fun c hc => by
@@ -801,19 +864,19 @@ theorem go_writerLoop {s : St} {x : List Nat} (h : GO s x) : GO (writerLoop s) x
 theorem go_finishSend {s : St} {x : List Nat} (w : Who) (h : GO s x) : GO (finishSend s w) x := by
   simp only [finishSend]
   split
-  · exact go_writerLoop ⟨h.cnt, h.handedNodup, h.idsNodup, h.idsLe, h.doneSent, h.droppedCtx,
+  · exact go_writerLoop ⟨h.cnt, h.handedNodup, h.idsNodup, h.idsLe, h.doneOff, h.droppedCtx,
       h.srcNone, h.sentWrote, h.wroteLe, h.dlvWrote, h.wroteOnce, h.unsFatal⟩
-  · exact ⟨h.cnt, h.handedNodup, h.idsNodup, h.idsLe, h.doneSent, h.droppedCtx,
+  · exact ⟨h.cnt, h.handedNodup, h.idsNodup, h.idsLe, h.doneOff, h.droppedCtx,
       h.srcNone, h.sentWrote, h.wroteLe, h.dlvWrote, h.wroteOnce, h.unsFatal⟩
 
 theorem go_setPhase {s : St} {x : List Nat} (w : Who) (p : Phase) (h : GO s x) :
     GO (setPhase s w p) x :=
-  ⟨h.cnt, h.handedNodup, h.idsNodup, h.idsLe, h.doneSent, h.droppedCtx,
+  ⟨h.cnt, h.handedNodup, h.idsNodup, h.idsLe, h.doneOff, h.droppedCtx,
       h.srcNone, h.sentWrote, h.wroteLe, h.dlvWrote, h.wroteOnce, h.unsFatal⟩
 
 theorem go_releaseWriteM {s : St} {x : List Nat} (h : GO s x) : GO (releaseWriteM s) x := by
   simp only [releaseWriteM]
-  split <;> exact ⟨h.cnt, h.handedNodup, h.idsNodup, h.idsLe, h.doneSent, h.droppedCtx,
+  split <;> exact ⟨h.cnt, h.handedNodup, h.idsNodup, h.idsLe, h.doneOff, h.droppedCtx,
       h.srcNone, h.sentWrote, h.wroteLe, h.dlvWrote, h.wroteOnce, h.unsFatal⟩
 
 theorem go_senderAtM {s : St} {x : List Nat} (w : Who) (h : GO s x) : GO (senderAtM s w) x := by
@@ -843,7 +906,7 @@ theorem go_finishFrame {s : St} {x : List Nat} {id : Nat} {it : Item} {f : Frame
       handedNodup := h.handedNodup
       idsNodup := h.idsNodup
       idsLe := h.idsLe
-      doneSent := h.doneSent
+      doneOff := h.doneOff
       droppedCtx := fun c hc' => by
         rcases List.mem_append.1 hc' with hc' | hc'
         · exact h.droppedCtx c hc'
@@ -862,18 +925,18 @@ theorem go_finishFrame {s : St} {x : List Nat} {id : Nat} {it : Item} {f : Frame
   · first | rw [if_neg hf] | skip
     · split
       · have h2 := go_failConn (s := { s with delivered := s.delivered ++ frameDlv id it f, reader := .exited })
-          (x := x) ⟨hdl.cnt, hdl.handedNodup, hdl.idsNodup, hdl.idsLe, hdl.doneSent, hdl.droppedCtx,
+          (x := x) ⟨hdl.cnt, hdl.handedNodup, hdl.idsNodup, hdl.idsLe, hdl.doneOff, hdl.droppedCtx,
             hdl.srcNone, hdl.sentWrote, hdl.wroteLe, hdl.dlvWrote, hdl.wroteOnce, hdl.unsFatal⟩
-        exact ⟨h2.cnt, h2.handedNodup, h2.idsNodup, h2.idsLe, h2.doneSent, h2.droppedCtx,
+        exact ⟨h2.cnt, h2.handedNodup, h2.idsNodup, h2.idsLe, h2.doneOff, h2.droppedCtx,
           h2.srcNone, h2.sentWrote, h2.wroteLe, h2.dlvWrote, h2.wroteOnce, h2.unsFatal⟩
-      · exact ⟨hdl.cnt, hdl.handedNodup, hdl.idsNodup, hdl.idsLe, hdl.doneSent, hdl.droppedCtx,
+      · exact ⟨hdl.cnt, hdl.handedNodup, hdl.idsNodup, hdl.idsLe, hdl.doneOff, hdl.droppedCtx,
           hdl.srcNone, hdl.sentWrote, hdl.wroteLe, hdl.dlvWrote, hdl.wroteOnce, hdl.unsFatal⟩
 
 /-! ## §4 the reader's hand; per-action preservation; induction over `run` -/
 
 /-- re-pack a `GO` for a state that differs only in fields `GO` does not mention -/
 macro "go_repack " h:term : term =>
-  `(⟨($h).cnt, ($h).handedNodup, ($h).idsNodup, ($h).idsLe, ($h).doneSent, ($h).droppedCtx,
+  `(⟨($h).cnt, ($h).handedNodup, ($h).idsNodup, ($h).idsLe, ($h).doneOff, ($h).droppedCtx,
      ($h).srcNone, ($h).sentWrote, ($h).wroteLe, ($h).dlvWrote, ($h).wroteOnce, ($h).unsFatal⟩)
 
 /-- The ownership/correlation invariant of a state at rest (between two actions). -/
@@ -1045,7 +1108,7 @@ theorem go_hand {s : St} {x : List Nat} {c : Nat} (h : GO s x) (hc : c ∉ s.han
     intro e; subst e; exact hc ha
   idsNodup := h.idsNodup
   idsLe := h.idsLe
-  doneSent := h.doneSent
+  doneOff := h.doneOff
   droppedCtx := h.droppedCtx
   srcNone := h.srcNone
   sentWrote := h.sentWrote
@@ -1090,7 +1153,7 @@ theorem gr_queueBatched {s s' : St} {c : Nat} (h : GR s) (hs : step s (.queueBat
           handedNodup := h1.handedNodup
           idsNodup := h1.idsNodup
           idsLe := h1.idsLe
-          doneSent := fun hd => by
+          doneOff := fun hd => by
             have hd' : s.done = true := hd
             exact absurd hd' hnd
           droppedCtx := h1.droppedCtx
@@ -1128,7 +1191,7 @@ theorem gr_queueDirect {s s' : St} {c : Nat} (h : GR s) (hs : step s (.queueDire
           handedNodup := h1.handedNodup
           idsNodup := h1.idsNodup
           idsLe := h1.idsLe
-          doneSent := h1.doneSent
+          doneOff := h1.doneOff
           droppedCtx := fun c' hc' => by
             rcases List.mem_append.1 hc' with hc' | hc'
             · exact h.go.droppedCtx c' hc'
@@ -1147,8 +1210,70 @@ theorem gr_queueDirect {s s' : St} {c : Nat} (h : GR s) (hs : step s (.queueDire
         · intro d hd id hid; simp only [List.mem_singleton] at hd; subst hd; cases hid
       · rename_i hnd
         injection hs with hs; subst hs
-        refine gr_neutral h (go_startSend _ _ h1 (by simpa using hnd) ?_)
+        refine gr_neutral h (go_startSend _ _ h1 ?_)
           (by rw [reader_startSend]) (fun p hp => (ext_startSend _ _ _).wrote p hp)
+        intro c'
+        have := h.go.wroteOnce c'
+        simp only [written, Item.calls, List.count_append, List.count_cons, List.count_nil] at *
+        by_cases e : c = c'
+        · subst e; simp; omega
+        · simp [e]; omega
+
+theorem fresh_failConn {s : St} {k : Nat → Nat}
+    (h : ∀ c, s.offered.count c + written s c + k c ≤ s.handed.count c) :
+    ∀ c, (failConn s).offered.count c + written (failConn s) c + k c ≤ (failConn s).handed.count c := by
+  rw [failConn_eq]
+  split
+  · exact h
+  · intro c
+    have := h c
+    show ([] : List Nat).count c + written s c + k c ≤ s.handed.count c
+    simp only [List.count_nil]; omega
+
+/-- the call is registered after an external `Close()` has run to completion -/
+theorem gr_queueDirectClosing {s s' : St} {c : Nat} (h : GR s)
+    (hs : step s (.queueDirectClosing c) = some s') : GR s' := by
+  simp only [step] at hs
+  split at hs
+  · cases hs
+  · rename_i hc
+    have hc : c ∉ s.handed := by simpa using hc
+    have hfr := go_fresh h.go hc
+    have h1 := go_hand h.go hc
+    split at hs
+    · rename_i hctx
+      split at hs
+      · cases hs
+      · injection hs with hs; subst hs
+        refine gr_neutral h ?_ rfl (fun _ hp => hp)
+        exact {
+          cnt := fun c' => by
+            have := h1.cnt c'
+            simp only [base, List.count_append, List.count_cons, List.count_nil] at *; omega
+          handedNodup := h1.handedNodup
+          idsNodup := h1.idsNodup
+          idsLe := h1.idsLe
+          doneOff := h1.doneOff
+          droppedCtx := fun c' hc' => by
+            rcases List.mem_append.1 hc' with hc' | hc'
+            · exact h.go.droppedCtx c' hc'
+            · simp only [List.mem_singleton] at hc'; subst hc'; simpa using hctx
+          srcNone := h1.srcNone
+          sentWrote := h1.sentWrote
+          wroteLe := h1.wroteLe
+          dlvWrote := h1.dlvWrote
+          wroteOnce := h1.wroteOnce
+          unsFatal := h1.unsFatal }
+    · split at hs
+      · injection hs with hs; subst hs
+        refine gr_neutral h ?_ rfl (fun _ hp => hp)
+        refine go_deliver (y := [c]) _ h1 (fun c' => dcount_singleton _ _ _ _) ?_ ?_
+        · intro d hd _; simp only [List.mem_singleton] at hd; subst hd; rfl
+        · intro d hd id hid; simp only [List.mem_singleton] at hd; subst hd; cases hid
+      · injection hs with hs; subst hs
+        refine gr_neutral h (go_startSend _ _ (go_failConn h1) (fresh_failConn ?_))
+          (by rw [reader_startSend]; exact held_failConn _)
+          (fun p hp => ((ext_failConn _).trans (ext_startSend _ _ _)).wrote p hp)
         intro c'
         have := h.go.wroteOnce c'
         simp only [written, Item.calls, List.count_append, List.count_cons, List.count_nil] at *
@@ -1177,7 +1302,7 @@ theorem gr_queueUnsendable {s s' : St} {c : Nat} (h : GR s)
           handedNodup := h1.handedNodup
           idsNodup := h1.idsNodup
           idsLe := h1.idsLe
-          doneSent := h1.doneSent
+          doneOff := h1.doneOff
           droppedCtx := fun c' hc' => by
             rcases List.mem_append.1 hc' with hc' | hc'
             · exact h.go.droppedCtx c' hc'
@@ -1205,7 +1330,7 @@ theorem gr_queueUnsendable {s s' : St} {c : Nat} (h : GR s)
           handedNodup := h1.handedNodup
           idsNodup := h1.idsNodup
           idsLe := fun p hp => Nat.le_succ_of_le (h.go.idsLe p hp)
-          doneSent := h1.doneSent
+          doneOff := h1.doneOff
           droppedCtx := h1.droppedCtx
           srcNone := fun d hd hn => by
             rcases List.mem_append.1 hd with hd | hd
@@ -1258,9 +1383,10 @@ theorem gr_cancel {s s' : St} {c : Nat} (h : GR s) (hs : step s (.cancel c) = so
       handedNodup := h.go.handedNodup
       idsNodup := h.go.idsNodup
       idsLe := h.go.idsLe
-      doneSent := fun hd => by
-        have := h.go.doneSent hd
-        exact ⟨this.1, by simp [this.2]⟩
+      doneOff := fun hd => by
+        have := h.go.doneOff hd
+        show s.offered.filter _ = []
+        rw [this]; rfl
       droppedCtx := fun c' hc' => by
         apply List.mem_append.2
         by_cases hm : s.offered.contains c = true
@@ -1287,7 +1413,9 @@ theorem gr_irr {s : St} (h : GR s) (mw : List MW) (a : Bool) :
 
 theorem gr_write {s s' : St} {w : Who} {last : Bool} {r : IO} (h : GR s)
     (hs : step s (.write w last r) = some s') : GR s' := by
-  simp only [step] at hs
+  have henv := (envOK_write hs).1
+  have hs := (envOK_write hs).2
+  simp only [writeCore] at hs
   split at hs
   · cases hs
   · rename_i snd _
@@ -1305,7 +1433,9 @@ theorem gr_write {s s' : St} {w : Who} {last : Bool} {r : IO} (h : GR s)
 
 theorem gr_arm {s s' : St} {w : Who} {r : IO} (h : GR s)
     (hs : step s (.arm w r) = some s') : GR s' := by
-  simp only [step] at hs
+  have henv := (envOK_arm hs).1
+  have hs := (envOK_arm hs).2
+  simp only [armCore] at hs
   split at hs
   · cases hs
   · split at hs
@@ -1399,6 +1529,7 @@ theorem gr_step {s s' : St} {a : Act} (h : GR s) (hs : step s a = some s') : GR 
   | queueBatched c => exact gr_queueBatched h hs
   | queueDirect c => exact gr_queueDirect h hs
   | queueUnsendable c => exact gr_queueUnsendable h hs
+  | queueDirectClosing c => exact gr_queueDirectClosing h hs
   | cancel c => exact gr_cancel h hs
   | write w last r => exact gr_write h hs
   | arm w r => exact gr_arm h hs
@@ -1414,7 +1545,7 @@ theorem gr_init (q : Nat) : GR (init q) where
     handedNodup := List.nodup_nil
     idsNodup := List.nodup_nil
     idsLe := fun p hp => by cases hp
-    doneSent := fun hd => by cases hd
+    doneOff := fun hd => by cases hd
     droppedCtx := fun c hc => by cases hc
     srcNone := fun d hd => by cases hd
     sentWrote := fun p hp => by cases hp
@@ -2832,6 +2963,42 @@ theorem gdr_queueDirect {s s' : St} {c : Nat} (h : GD s) (hr : Rest s)
           injection e with e; subst e
           exact List.mem_append_right _ (List.mem_singleton.2 rfl)
 
+theorem handed_failConn (s : St) : (failConn s).handed = s.handed := by
+  rw [failConn_eq]; split <;> rfl
+
+theorem rest_failConn {s : St} (hr : Rest s) : Rest (failConn s) := by
+  intro hm
+  rw [mWait_failConn]
+  apply hr
+  rw [← mHeld_failConn]; exact hm
+
+theorem gdr_queueDirectClosing {s s' : St} {c : Nat} (h : GD s) (hr : Rest s)
+    (hs : step s (.queueDirectClosing c) = some s') : GD s' ∧ Rest s' := by
+  simp only [step] at hs
+  split at hs
+  · cases hs
+  · rename_i hc
+    have hc : c ∉ s.handed := by simpa using hc
+    split at hs
+    · split at hs
+      · cases hs
+      · injection hs with hs; subst hs
+        exact ⟨gd_handed h c _ _ _, hr⟩
+    · split at hs
+      · injection hs with hs; subst hs
+        exact ⟨gd_handed h c _ _ _, hr⟩
+      · injection hs with hs; subst hs
+        refine ⟨gd_startSend _ _ (gd_failConn (gd_handed h c s.delivered s.dropped s.offered)) ?_
+          (fun e => by cases e) ?_,
+          rest_startSend _ _ (rest_failConn (s := { s with handed := _ }) hr)⟩
+        · intro x hx hw
+          rw [sends_failConn] at hx
+          exact hc (h.directHanded x hx c hw)
+        · intro c' e
+          injection e with e; subst e
+          rw [handed_failConn]
+          exact List.mem_append_right _ (List.mem_singleton.2 rfl)
+
 theorem gdr_queueUnsendable {s s' : St} {c : Nat} (h : GD s) (hr : Rest s)
     (hs : step s (.queueUnsendable c) = some s') : GD s' ∧ Rest s' := by
   simp only [step] at hs
@@ -2872,7 +3039,9 @@ theorem gdr_cancel {s s' : St} {c : Nat} (h : GD s) (hr : Rest s)
 
 theorem gdr_write {s s' : St} {w : Who} {last : Bool} {r : IO} (h : GD s) (hr : Rest s)
     (hs : step s (.write w last r) = some s') : GD s' ∧ Rest s' := by
-  simp only [step] at hs
+  have henv := (envOK_write hs).1
+  have hs := (envOK_write hs).2
+  simp only [writeCore] at hs
   split at hs
   · cases hs
   · rename_i snd hf
@@ -2920,7 +3089,9 @@ theorem gdr_write {s s' : St} {w : Who} {last : Bool} {r : IO} (h : GD s) (hr : 
 
 theorem gdr_arm {s s' : St} {w : Who} {r : IO} (hg : GR s) (h : GD s)
     (hs : step s (.arm w r) = some s') : GD s' ∧ Rest s' := by
-  simp only [step] at hs
+  have henv := (envOK_arm hs).1
+  have hs := (envOK_arm hs).2
+  simp only [armCore] at hs
   split at hs
   · cases hs
   · rename_i snd hf
@@ -3091,11 +3262,631 @@ theorem gdr_close {s s' : St} (h : GD s) (hr : Rest s)
   apply hr
   rw [← mHeld_failConn]; exact hm
 
+/-! ## §6 after the failure: `DS` (a registered item belongs to a send still before/in its write),
+`DR` (the reader is not parked in `Read`)
+
+Since `queueDirectClosing` an item can be registered on a connection that is already `done`
+(registered after the failure sweep). It is completed by its own sender when that sender's write
+fails (`sendFailed` finds it still registered). `DS` needs the environment restriction `envOK`:
+on a closed connection a final `Write` cannot succeed. -/
+
+def okPhase (p : Phase) : Prop := p = .addWait ∨ p = .lockWait ∨ p = .write
+
+/-- the only send of its goroutine -/
+def Only (l : List Snd) (x : Snd) : Prop := ∀ y ∈ l, y.who = x.who → y = x
+
+def DS (s : St) : Prop :=
+  s.done = true → ∀ p ∈ s.sent, ∃ x ∈ s.sends, x.id = p.1 ∧ okPhase x.phase ∧ Only s.sends x
+
+/-- when `done`: goroutine `w` has a send that is past its write, or whose item is not registered -/
+def Free (s : St) (w : Who) : Prop :=
+  s.done = true → ∃ xf ∈ s.sends, xf.who = w ∧ (¬ okPhase xf.phase ∨ ∀ p ∈ s.sent, p.1 ≠ xf.id)
+
+theorem ds_of_live {s : St} (h : s.done = false) : DS s := fun hd => by rw [h] at hd; cases hd
+
+theorem done_startSend (s : St) (w : Who) (it : Item) : (startSend s w it).done = s.done := by
+  rw [startSend_eq']; split <;> rfl
+
+theorem done_writerLoop (s : St) : (writerLoop s).done = s.done := by
+  simp only [writerLoop]
+  split
+  · rfl
+  · split
+    · rfl
+    · split
+      · rfl
+      · exact done_startSend _ _ _
+
+theorem done_finishSend (s : St) (w : Who) : (finishSend s w).done = s.done := by
+  simp only [finishSend]
+  split
+  · exact done_writerLoop _
+  · rfl
+
+theorem done_releaseWriteM (s : St) : (releaseWriteM s).done = s.done := by
+  simp only [releaseWriteM]; split <;> rfl
+
+theorem done_senderAtM (s : St) (w : Who) : (senderAtM s w).done = s.done := by
+  simp only [senderAtM]
+  split
+  · exact done_finishSend s w
+  · rfl
+
+theorem ds_failConn {s : St} (h : DS s) : DS (failConn s) := by
+  rw [failConn_eq]
+  split
+  · exact h
+  · intro _ p hp; cases hp
+
+/-- same sends, fewer registered items -/
+theorem ds_sub {s s' : St} (h : DS s) (hd : s'.done = true → s.done = true)
+    (hsends : s'.sends = s.sends) (hsent : ∀ p ∈ s'.sent, p ∈ s.sent) : DS s' := by
+  intro hd' p hp
+  rw [hsends]
+  exact h (hd hd') p (hsent p hp)
+
+theorem ds_sendFailed {s : St} (snd : Snd) (h : DS s) : DS (sendFailed s snd) := by
+  have h1 := ds_failConn h
+  simp only [sendFailed]
+  split
+  · exact ds_sub h1 (fun hd => hd) rfl (fun p hp => (List.mem_filter.1 hp).1)
+  · exact h1
+
+theorem sent_sendFailed_ne (s : St) (snd : Snd) : ∀ p ∈ (sendFailed s snd).sent, p.1 ≠ snd.id := by
+  simp only [sendFailed]
+  split
+  · intro p hp
+    have := (List.mem_filter.1 hp).2
+    simpa using this
+  · rename_i hl
+    intro p hp e
+    simp only [lookupSent, Option.map_eq_none_iff, List.find?_eq_none] at hl
+    have := hl p hp
+    simp [e] at this
+
+/-- rewriting the sends of `w` keeping id and who; either the new phase is still before/in the
+write, or `w` is `Free` -/
+theorem ds_mapW {s : St} (w : Who) (g : Snd → Snd) (h : DS s) (hgw : ∀ y, (g y).who = y.who)
+    (hgi : ∀ y, (g y).id = y.id) (hc : (∀ y, okPhase (g y).phase) ∨ Free s w) :
+    DS { s with sends := s.sends.map (fun y => if y.who == w then g y else y) } := by
+  intro hd p hp
+  have hd : s.done = true := hd
+  obtain ⟨x, hx, hxi, hxp, hxo⟩ := h hd p hp
+  have hg' : ∀ y : Snd, (if y.who == w then g y else y).who = y.who := by
+    intro y; split
+    · exact hgw y
+    · rfl
+  refine ⟨if x.who == w then g x else x, List.mem_map.2 ⟨x, hx, rfl⟩, ?_, ?_, ?_⟩
+  · split
+    · rw [hgi]; exact hxi
+    · exact hxi
+  · split
+    · rename_i hw
+      have hw : x.who = w := by simpa using hw
+      rcases hc with hc | hc
+      · exact hc x
+      · obtain ⟨xf, hxf, hxfw, hxf2⟩ := hc hd
+        have : xf = x := hxo xf hxf (by rw [hxfw, hw])
+        subst this
+        rcases hxf2 with h2 | h2
+        · exact absurd hxp h2
+        · exact absurd hxi.symm (h2 p hp)
+    · exact hxp
+  · intro y' hy' hwho
+    obtain ⟨y, hy, rfl⟩ := List.mem_map.1 hy'
+    rw [hg' y, hg' x] at hwho
+    rw [hxo y hy hwho]
+
+theorem ds_filterW {s : St} (w : Who) (h : DS s) (hc : Free s w) :
+    DS { s with sends := s.sends.filter (fun x => x.who != w) } := by
+  intro hd p hp
+  have hd : s.done = true := hd
+  obtain ⟨x, hx, hxi, hxp, hxo⟩ := h hd p hp
+  have hne : x.who ≠ w := by
+    intro hw
+    obtain ⟨xf, hxf, hxfw, hxf2⟩ := hc hd
+    have : xf = x := hxo xf hxf (by rw [hxfw, hw])
+    subst this
+    rcases hxf2 with h2 | h2
+    · exact h2 hxp
+    · exact h2 p hp hxi.symm
+  refine ⟨x, List.mem_filter.2 ⟨hx, by simpa using hne⟩, hxi, hxp, ?_⟩
+  intro y hy hwho
+  exact hxo y (List.mem_filter.1 hy).1 hwho
+
+theorem ds_writerLoop {s : St} (h : DS s) : DS (writerLoop s) := by
+  intro hd
+  rw [done_writerLoop] at hd
+  revert hd
+  simp only [writerLoop]
+  split
+  · exact h
+  · split
+    · exact h
+    · rename_i hnd; intro hd; exact absurd hd hnd
+
+theorem ds_finishSend {s : St} (w : Who) (h : DS s) (hc : Free s w) : DS (finishSend s w) := by
+  have h1 := ds_filterW w h hc
+  simp only [finishSend]
+  split
+  · exact ds_writerLoop (s := { s with sends := _, writerBusy := false }) h1
+  · exact h1
+
+theorem ds_releaseWriteM {s : St} (h : DS s) : DS (releaseWriteM s) := by
+  simp only [releaseWriteM]
+  split
+  · rename_i x _
+    exact ds_mapW x.who (fun y => { y with phase := .write }) h (fun _ => rfl) (fun _ => rfl)
+      (Or.inl (fun _ => Or.inr (Or.inr rfl)))
+  · exact h
+
+theorem ds_senderAtM {s : St} (w : Who) (h : DS s) (hc : Free s w) : DS (senderAtM s w) := by
+  simp only [senderAtM]
+  split
+  · exact ds_finishSend w h hc
+  · exact ds_mapW w (fun y => { y with phase := .arm }) h (fun _ => rfl) (fun _ => rfl) (Or.inr hc)
+
+theorem ds_senderAddN {s : St} (n : Nat) (w : Who) (h : DS s) : DS (senderAddN s n w) :=
+  ds_mapW w (addG s) h (fun _ => rfl) (fun _ => rfl) (Or.inl (fun y => by
+    show okPhase (if s.writeM.isNone then Phase.write else Phase.lockWait)
+    split
+    · exact Or.inr (Or.inr rfl)
+    · exact Or.inr (Or.inl rfl)))
+
+/-- registering a new send of a goroutine that has none -/
+theorem ds_regSend {s : St} (w : Who) (it : Item) (h : DS s) (hw : ∀ x ∈ s.sends, x.who ≠ w) :
+    DS (regSend s w it) := by
+  intro hd p hp
+  have hd : s.done = true := hd
+  rcases List.mem_append.1 hp with hp | hp
+  · obtain ⟨x, hx, hxi, hxp, hxo⟩ := h hd p hp
+    refine ⟨x, List.mem_append_left _ hx, hxi, hxp, ?_⟩
+    intro y hy hwho
+    rcases List.mem_append.1 hy with hy | hy
+    · exact hxo y hy hwho
+    · simp only [List.mem_singleton] at hy; subst hy
+      exact absurd hwho.symm (hw x hx)
+  · simp only [List.mem_singleton] at hp; subst hp
+    refine ⟨newSnd s w it, List.mem_append_right _ (List.mem_singleton.2 rfl), rfl, Or.inl rfl, ?_⟩
+    intro y hy hwho
+    rcases List.mem_append.1 hy with hy | hy
+    · exact absurd hwho (hw y hy)
+    · exact List.mem_singleton.1 hy
+
+theorem ds_startSend {s : St} (w : Who) (it : Item) (h : DS s) (hw : ∀ x ∈ s.sends, x.who ≠ w) :
+    DS (startSend s w it) := by
+  have h1 := ds_regSend w it h hw
+  rw [startSend_eq]
+  split
+  · exact h1
+  · exact ds_senderAddN _ w h1
+
+theorem ds_finishFrame {s : St} {id : Nat} {it : Item} {f : Frame} (h : DS s) :
+    DS (finishFrame s id it f) := by
+  rw [finishFrame_eq]
+  split
+  · exact h
+  · split
+    · exact h
+    · split
+      · have := ds_failConn (s := { s with delivered := s.delivered ++ frameDlv id it f, reader := .exited }) h
+        exact this
+      · exact h
+
+theorem ds_readerAtN {s : St} {n id : Nat} {it : Item} {f : Frame} (h : DS s) :
+    DS (readerAtN s n id it f) := by
+  simp only [readerAtN]
+  split
+  · exact h
+  · exact ds_finishFrame (s := { s with inFlight := n }) h
+
+theorem ds_wakeM (n : Nat) {s : St} (h : DS s) : DS (wakeM n s) := by
+  induction n generalizing s with
+  | zero => exact h
+  | succ n ih =>
+    simp only [wakeM]
+    split
+    · exact h
+    · split
+      · exact h
+      · rename_i w rest hq
+        have h1 : DS { s with mWait := rest } := h
+        split
+        · rename_i x hx
+          split
+          · rw [senderAdd_eq]
+            exact ih (ds_senderAddN _ w h1)
+          · rename_i hna
+            split
+            · rename_i hp
+              refine ih (ds_senderAtM w h1 (fun _ => ⟨x, List.mem_of_find?_eq_some hx, ?_, Or.inl ?_⟩))
+              · simpa using List.find?_some hx
+              · have hp : x.phase = .armWait := by simpa using hp
+                rw [hp]; intro e; rcases e with e | e | e <;> cases e
+            · exact ih h1
+        · exact ih h1
+      · rename_i rest hq
+        have h1 : DS { s with mWait := rest } := h
+        split
+        · rw [readerAtM_eq]
+          exact ih (ds_readerAtN h1)
+        · exact ih h1
+
+theorem ds_releaseM {s : St} (h : DS s) : DS (releaseM s) := ds_wakeM _ h
+
+theorem sends_releaseWriteM_id {s : St} {x : Snd} (hx : x ∈ s.sends)
+    (hp : x.phase = .write) :
+    ∃ x' ∈ (releaseWriteM s).sends, x'.who = x.who ∧ x'.id = x.id ∧ x'.phase = .write := by
+  simp only [releaseWriteM]
+  split
+  · rename_i y _
+    refine ⟨_, List.mem_map.2 ⟨x, hx, rfl⟩, ?_, ?_, ?_⟩
+    · split <;> rfl
+    · split <;> rfl
+    · split
+      · rfl
+      · exact hp
+  · exact ⟨x, hx, rfl, rfl, hp⟩
+
+theorem live_of_env {s : St} {r : IO} (henv : ¬ (s.done = true ∧ r = .ok)) (hr : r = .ok) :
+    s.done = false := by
+  cases hd : s.done
+  · rfl
+  · exact absurd ⟨hd, hr⟩ henv
+
+theorem ds_step {s s' : St} {a : Act} (hgd : GD s) (h : DS s) (hs : step s a = some s') : DS s' := by
+  cases a with
+  | queueBatched c =>
+    simp only [step] at hs
+    split at hs
+    · cases hs
+    · split at hs
+      · cases hs
+      · split at hs
+        · injection hs with hs; subst hs
+          exact ds_sub h (fun hd => hd) rfl (fun _ hp => hp)
+        · rename_i hnd
+          injection hs with hs; subst hs
+          refine ds_of_live ?_
+          rw [done_writerLoop]; simpa using hnd
+  | queueDirect c =>
+    simp only [step] at hs
+    split at hs
+    · cases hs
+    · split at hs
+      · split at hs
+        · cases hs
+        · injection hs with hs; subst hs
+          exact ds_sub h (fun hd => hd) rfl (fun _ hp => hp)
+      · split at hs
+        · injection hs with hs; subst hs
+          exact ds_sub h (fun hd => hd) rfl (fun _ hp => hp)
+        · rename_i hnd
+          injection hs with hs; subst hs
+          refine ds_of_live ?_
+          rw [done_startSend]; simpa using hnd
+  | queueDirectClosing c =>
+    simp only [step] at hs
+    split at hs
+    · cases hs
+    · rename_i hc
+      have hc : c ∉ s.handed := by simpa using hc
+      split at hs
+      · split at hs
+        · cases hs
+        · injection hs with hs; subst hs
+          exact ds_sub h (fun hd => hd) rfl (fun _ hp => hp)
+      · split at hs
+        · injection hs with hs; subst hs
+          exact ds_sub h (fun hd => hd) rfl (fun _ hp => hp)
+        · injection hs with hs; subst hs
+          refine ds_startSend _ _ (ds_failConn (s := { s with handed := _ }) h) ?_
+          intro x hx hw
+          rw [sends_failConn] at hx
+          exact hc (hgd.directHanded x hx c hw)
+  | queueUnsendable c =>
+    simp only [step] at hs
+    split at hs
+    · cases hs
+    · split at hs
+      · split at hs
+        · cases hs
+        · injection hs with hs; subst hs
+          exact ds_sub h (fun hd => hd) rfl (fun _ hp => hp)
+      · split at hs
+        · injection hs with hs; subst hs
+          exact ds_sub h (fun hd => hd) rfl (fun _ hp => hp)
+        · injection hs with hs; subst hs
+          exact ds_sub h (fun hd => hd) rfl (fun _ hp => hp)
+  | cancel c =>
+    simp only [step] at hs
+    split at hs
+    · cases hs
+    · injection hs with hs; subst hs
+      exact ds_sub h (fun hd => hd) rfl (fun _ hp => hp)
+  | write w last r =>
+    have henv := (envOK_write hs).1
+    have hs := (envOK_write hs).2
+    simp only [writeCore] at hs
+    split at hs
+    · cases hs
+    · rename_i snd hf
+      obtain ⟨hx, hxw, hxp⟩ := findSend_some hf
+      split at hs
+      · injection hs with hs; subst hs
+        obtain ⟨x', hx', hx'w, hx'i, _⟩ := sends_releaseWriteM_id hx hxp
+        refine ds_finishSend w (ds_sendFailed snd (ds_releaseWriteM h)) (fun _ => ⟨x', ?_, ?_, Or.inr ?_⟩)
+        · rw [sends_sendFailed]; exact hx'
+        · rw [hx'w, hxw]
+        · rw [hx'i]; exact sent_sendFailed_ne _ _
+      · have hlive := live_of_env henv rfl
+        split at hs
+        · injection hs with hs; subst hs; exact h
+        · split at hs
+          · injection hs with hs; subst hs
+            exact ds_of_live (by
+              show (releaseWriteM s).done = false
+              rw [done_releaseWriteM]; exact hlive)
+          · injection hs with hs; subst hs
+            exact ds_of_live (by rw [done_senderAtM, done_releaseWriteM]; exact hlive)
+  | arm w r =>
+    have henv := (envOK_arm hs).1
+    have hs := (envOK_arm hs).2
+    simp only [armCore] at hs
+    split at hs
+    · cases hs
+    · rename_i snd hf
+      obtain ⟨hx, hxw, hxp⟩ := findSend_some hf
+      split at hs
+      · have hlive := live_of_env henv rfl
+        injection hs with hs; subst hs
+        exact ds_releaseM (ds_of_live (by rw [done_finishSend]; exact hlive))
+      · injection hs with hs; subst hs
+        refine ds_releaseM (ds_finishSend w (ds_sendFailed snd h) (fun _ => ⟨snd, ?_, hxw, Or.inl ?_⟩))
+        · rw [sends_sendFailed]; exact hx
+        · rw [hxp]; intro e; rcases e with e | e | e <;> cases e
+  | read id f =>
+    simp only [step] at hs
+    split at hs
+    · cases hs
+    · have hfail : DS { failConn { s with reader := .exited } with reader := .exited } :=
+        ds_failConn (s := { s with reader := .exited }) h
+      split at hs
+      · injection hs with hs; subst hs; exact hfail
+      · split at hs
+        · injection hs with hs; subst hs; exact hfail
+        · have h1 : DS (eraseSent s id) :=
+            ds_sub h (fun hd => hd) rfl (fun p hp => (List.mem_filter.1 hp).1)
+          split at hs
+          · injection hs with hs; subst hs; exact h1
+          · injection hs with hs; subst hs
+            rw [readerAtM_eq]; exact ds_readerAtN h1
+  | readErr =>
+    simp only [step] at hs
+    split at hs
+    · cases hs
+    · injection hs with hs; subst hs
+      exact ds_failConn (s := { s with reader := .exited }) h
+  | timeout =>
+    simp only [step] at hs
+    split at hs
+    · cases hs
+    · injection hs with hs; subst hs
+      exact ds_failConn (s := { s with reader := .exited }) h
+  | clear r =>
+    simp only [step] at hs
+    split at hs
+    · split at hs
+      · injection hs with hs; subst hs
+        exact ds_releaseM (ds_finishFrame (s := { s with armed := false, reader := .reading }) h)
+      · injection hs with hs; subst hs
+        exact ds_releaseM (ds_failConn (s := { deliverItem s _ .connErr none with reader := .exited }) h)
+    · cases hs
+  | close =>
+    simp only [step] at hs
+    injection hs with hs; subst hs
+    exact ds_failConn h
+
+/-! ### `DR`: on a failed connection the reader is never parked in `Read` -/
+
+def DR (s : St) : Prop := s.done = true → s.reader ≠ .reading
+
+theorem dr_same {s s' : St} (h : DR s) (e1 : s'.done = s.done) (e2 : s'.reader = s.reader) :
+    DR s' := by
+  intro hd; rw [e2]; exact h (e1 ▸ hd)
+
+theorem dr_failConn (s : St) (h : DR s) : DR (failConn s) := by
+  rw [failConn_eq]
+  split
+  · exact h
+  · intro _
+    show (if s.reader = .reading then Reader.exited else s.reader) ≠ .reading
+    split
+    · simp
+    · assumption
+
+theorem dr_sendFailed {s : St} (snd : Snd) (h : DR s) : DR (sendFailed s snd) := by
+  simp only [sendFailed]
+  split
+  · exact dr_same (dr_failConn s h) rfl rfl
+  · exact dr_failConn s h
+
+theorem dr_readerNext (s : St) : s.done = true → readerNext s ≠ .reading := by
+  intro hd; simp [readerNext, hd]
+
+theorem dr_finishFrame {s : St} {id : Nat} {it : Item} {f : Frame} (h : f = .badHeader → DR s) :
+    DR (finishFrame s id it f) := by
+  rw [finishFrame_eq]
+  split
+  · exact dr_readerNext s
+  · split
+    · rename_i hf; exact h hf
+    · split
+      · intro _; show Reader.exited ≠ .reading; simp
+      · exact dr_readerNext s
+
+theorem dr_readerAtN {s : St} {n id : Nat} {it : Item} {f : Frame} (h : f = .badHeader → DR s) :
+    DR (readerAtN s n id it f) := by
+  simp only [readerAtN]
+  split
+  · intro _; show Reader.clearing id it f ≠ .reading; simp
+  · exact dr_finishFrame (s := { s with inFlight := n }) h
+
+theorem dr_wakeM (n : Nat) {s : St} (h : DR s) : DR (wakeM n s) := by
+  induction n generalizing s with
+  | zero => exact h
+  | succ n ih =>
+    simp only [wakeM]
+    split
+    · exact h
+    · split
+      · exact h
+      · rename_i w rest hq
+        have h1 : DR { s with mWait := rest } := h
+        split
+        · split
+          · exact ih (dr_same h1 rfl rfl)
+          · split
+            · exact ih (dr_same h1 (done_senderAtM _ _) (reader_senderAtM _ _))
+            · exact ih h1
+        · exact ih h1
+      · rename_i rest hq
+        have h1 : DR { s with mWait := rest } := h
+        split
+        · rw [readerAtM_eq]
+          exact ih (dr_readerAtN (fun _ => h1))
+        · exact ih h1
+
+theorem dr_step {s s' : St} {a : Act} (hg : GR s) (h : DR s) (hs : step s a = some s') : DR s' := by
+  have hex : ∀ X : St, DR { X with reader := .exited } := fun X _ => by
+    show Reader.exited ≠ .reading; simp
+  cases a with
+  | queueBatched c =>
+    simp only [step] at hs
+    split at hs
+    · cases hs
+    · split at hs
+      · cases hs
+      · split at hs
+        · injection hs with hs; subst hs; exact dr_same h rfl rfl
+        · injection hs with hs; subst hs
+          exact dr_same h (done_writerLoop _) (reader_writerLoop _)
+  | queueDirect c =>
+    simp only [step] at hs
+    split at hs
+    · cases hs
+    · split at hs
+      · split at hs
+        · cases hs
+        · injection hs with hs; subst hs; exact dr_same h rfl rfl
+      · split at hs
+        · injection hs with hs; subst hs; exact dr_same h rfl rfl
+        · injection hs with hs; subst hs
+          exact dr_same h (done_startSend _ _ _) (reader_startSend _ _ _)
+  | queueDirectClosing c =>
+    simp only [step] at hs
+    split at hs
+    · cases hs
+    · split at hs
+      · split at hs
+        · cases hs
+        · injection hs with hs; subst hs; exact dr_same h rfl rfl
+      · split at hs
+        · injection hs with hs; subst hs; exact dr_same h rfl rfl
+        · injection hs with hs; subst hs
+          have h0 : DR { s with handed := s.handed ++ [c] } := dr_same h rfl rfl
+          have h1 := dr_failConn _ h0
+          exact dr_same h1 (done_startSend _ _ _) (reader_startSend _ _ _)
+  | queueUnsendable c =>
+    simp only [step] at hs
+    split at hs
+    · cases hs
+    · split at hs
+      · split at hs
+        · cases hs
+        · injection hs with hs; subst hs; exact dr_same h rfl rfl
+      · split at hs
+        · injection hs with hs; subst hs; exact dr_same h rfl rfl
+        · injection hs with hs; subst hs; exact dr_same h rfl rfl
+  | cancel c =>
+    simp only [step] at hs
+    split at hs
+    · cases hs
+    · injection hs with hs; subst hs; exact dr_same h rfl rfl
+  | write w last r =>
+    have hs := (envOK_write hs).2
+    simp only [writeCore] at hs
+    have h1 : DR (releaseWriteM s) := dr_same h (done_releaseWriteM s) (reader_releaseWriteM s)
+    split at hs
+    · cases hs
+    · split at hs
+      · injection hs with hs; subst hs
+        exact dr_same (dr_sendFailed _ h1) (done_finishSend _ _) (reader_finishSend _ _)
+      · split at hs
+        · injection hs with hs; subst hs; exact h
+        · split at hs
+          · injection hs with hs; subst hs; exact dr_same h1 rfl rfl
+          · injection hs with hs; subst hs
+            exact dr_same h1 (done_senderAtM _ _) (reader_senderAtM _ _)
+  | arm w r =>
+    have hs := (envOK_arm hs).2
+    simp only [armCore] at hs
+    split at hs
+    · cases hs
+    · split at hs
+      · injection hs with hs; subst hs
+        exact dr_wakeM _ (dr_same (s := { s with armed := true }) (dr_same h rfl rfl)
+          (done_finishSend _ _) (reader_finishSend _ _))
+      · injection hs with hs; subst hs
+        exact dr_wakeM _ (dr_same (dr_sendFailed _ h) (done_finishSend _ _) (reader_finishSend _ _))
+  | read id f =>
+    simp only [step] at hs
+    split at hs
+    · cases hs
+    · split at hs
+      · injection hs with hs; subst hs; exact hex _
+      · split at hs
+        · injection hs with hs; subst hs; exact hex _
+        · split at hs
+          · injection hs with hs; subst hs
+            intro _; show Reader.downWait id _ f ≠ .reading; simp
+          · injection hs with hs; subst hs
+            rw [readerAtM_eq]
+            exact dr_readerAtN (fun _ => dr_same (s' := eraseSent s id) h rfl rfl)
+  | readErr =>
+    simp only [step] at hs
+    split at hs
+    · cases hs
+    · injection hs with hs; subst hs; exact hex _
+  | timeout =>
+    simp only [step] at hs
+    split at hs
+    · cases hs
+    · injection hs with hs; subst hs; exact hex _
+  | clear r =>
+    simp only [step] at hs
+    split at hs
+    · rename_i id it f hrd
+      have hh : s.reader.held = some (id, it, f) := by rw [hrd]; rfl
+      have hf := (hg.held _ _ _ hh).1
+      split at hs
+      · injection hs with hs; subst hs
+        exact dr_wakeM _ (dr_finishFrame (fun e => absurd e hf))
+      · injection hs with hs; subst hs
+        exact dr_wakeM _ (hex _)
+    · cases hs
+  | close =>
+    simp only [step] at hs
+    injection hs with hs; subst hs
+    exact dr_failConn s h
+
 /-- everything proved about reachable states -/
 structure Good (s : St) : Prop where
   gr : GR s
   gd : GD s
   rest : Rest s
+  ds : DS s
+  dr : DR s
 
 theorem good_step {s s' : St} {a : Act} (h : Good s) (hs : step s a = some s') : Good s' := by
   have hgr := gr_step h.gr hs
@@ -3104,6 +3895,7 @@ theorem good_step {s s' : St} {a : Act} (h : Good s) (hs : step s a = some s') :
     | queueBatched c => exact gdr_queueBatched h.gd h.rest hs
     | queueDirect c => exact gdr_queueDirect h.gd h.rest hs
     | queueUnsendable c => exact gdr_queueUnsendable h.gd h.rest hs
+    | queueDirectClosing c => exact gdr_queueDirectClosing h.gd h.rest hs
     | cancel c => exact gdr_cancel h.gd h.rest hs
     | write w last r => exact gdr_write h.gd h.rest hs
     | arm w r => exact gdr_arm h.gr h.gd hs
@@ -3112,7 +3904,7 @@ theorem good_step {s s' : St} {a : Act} (h : Good s) (hs : step s a = some s') :
     | timeout => exact gdr_timeout h.gd h.rest hs
     | clear r => exact gdr_clear h.gr h.gd hs
     | close => exact gdr_close h.gd h.rest hs
-  exact ⟨hgr, this.1, this.2⟩
+  exact ⟨hgr, this.1, this.2, ds_step h.gd h.ds hs, dr_step h.gr h.dr hs⟩
 
 theorem gd_init (q : Nat) : GD (init q) where
   whoNodup := List.nodup_nil
@@ -3132,7 +3924,8 @@ theorem gd_init (q : Nat) : GD (init q) where
   i1 := fun _ ha => by cases ha
   i2 := fun _ hp => by cases hp
 
-theorem good_init (q : Nat) : Good (init q) := ⟨gr_init q, gd_init q, fun _ => rfl⟩
+theorem good_init (q : Nat) : Good (init q) :=
+  ⟨gr_init q, gd_init q, fun _ => rfl, ds_of_live rfl, fun hd => by cases hd⟩
 
 theorem good_run {s s' : St} (as : List Act) (h : Good s) (hr : run s as = some s') : Good s' := by
   induction as generalizing s with
